@@ -319,6 +319,11 @@ pub trait KeyT: Hash + Eq + Clone + Send + Sync + serde::Serialize + serde::de::
     fn id(&self) -> u32;
     fn q(class: u32) -> Self::Q;
     fn from_q(q: &Self::Q) -> Self;
+    /// `get_many_mut` through an UNSIZED borrowed key form whose requests are prefixes of one shared buffer (they share their
+    /// start address, like `&s[..2]` and `&s[..3]` of one string).  None: the key type has no such form.
+    fn get_many_unsized<V>(_m: &mut hashbrown::HashMap<Self, V, PlanBH, CheckingAlloc>, _classes: &[u32]) -> Option<Vec<Option<*mut V>>> {
+        None
+    }
 }
 
 pub trait ValT: Clone + PartialEq + Send + Sync + serde::Serialize + serde::de::DeserializeOwned + 'static {
@@ -379,9 +384,44 @@ impl From<&KQ> for Key {
         Key { class: q.0, id: new_id() }
     }
 }
+/// Unsized borrowed form of `Key`: a byte slice of length class + 1 (only its length matters).
+#[repr(transparent)]
+pub struct KS([u8]);
+impl KS {
+    pub fn new(b: &[u8]) -> &KS {
+        // SAFETY: KS is a transparent wrapper of [u8]
+        unsafe { &*(b as *const [u8] as *const KS) }
+    }
+    fn class(&self) -> u32 {
+        self.0.len() as u32 - 1
+    }
+}
+impl Hash for KS {
+    fn hash<H: Hasher>(&self, state: &mut H) {
+        state.write_u32(self.class());
+    }
+}
+impl equivalent::Equivalent<Key> for KS {
+    fn equivalent(&self, k: &Key) -> bool {
+        check_live(k.id, "KS::equivalent");
+        eq_hook(self.class() == k.class)
+    }
+}
 impl KeyT for Key {
     type Q = KQ;
     const TRACKED: bool = true;
+    fn get_many_unsized<V>(m: &mut hashbrown::HashMap<Key, V, PlanBH, CheckingAlloc>, classes: &[u32]) -> Option<Vec<Option<*mut V>>> {
+        let buf = [0u8; 1024];
+        let q = |i: usize| KS::new(&buf[..classes[i] as usize + 1]);
+        let out: Vec<Option<*mut V>> = match classes.len() {
+            0 => m.get_many_mut::<KS, 0>([]).into_iter().map(|o| o.map(|v| v as *mut V)).collect(),
+            1 => m.get_many_mut([q(0)]).into_iter().map(|o| o.map(|v| v as *mut V)).collect(),
+            2 => m.get_many_mut([q(0), q(1)]).into_iter().map(|o| o.map(|v| v as *mut V)).collect(),
+            3 => m.get_many_mut([q(0), q(1), q(2)]).into_iter().map(|o| o.map(|v| v as *mut V)).collect(),
+            _ => m.get_many_mut([q(0), q(1), q(2), q(3)]).into_iter().map(|o| o.map(|v| v as *mut V)).collect(),
+        };
+        Some(out)
+    }
     fn make(class: u32) -> Key {
         Key { class, id: new_id() }
     }
